@@ -690,7 +690,7 @@ def rewrite_body(body, ctx, cname):
                     e = match_tok(toks, k, '(', ')')
                     inner = [x for x in toks[k + 1:e] if x.kind not in ('ws', 'pp')]
                     txt = ''.join(x.text for x in inner)
-                    m = re.match(r'^error::(\w+),__FILE__,__LINE__$', txt)
+                    m = re.match(r'^error::(\w+),(?:__FILE__,__LINE__|\w+,\w+)$', txt)
                     s = sig(toks, e, 1)
                     if m and s is not None and toks[s].text == ';':
                         out.append(Tok('id', 'VERIF_THROW(ERR_%s)' % m.group(1)))
